@@ -309,7 +309,7 @@ def needed_commands(desc, roots):
         if c is None or c["name"] in seen:
             return
         seen.add(c["name"])
-        for i in c.get("inputs", []):
+        for i in c.get("inputs", []) + c.get("order_only", []):
             visit(i)
         order.append(c)
     for r in roots:
